@@ -48,6 +48,7 @@ EXC_PARENTS = {
     'AssertionError': 'Exception', 'StopIteration': 'Exception', 'UnicodeDecodeError': 'ValueError',
     'NotImplementedError': 'RuntimeError', 'ImportError': 'Exception', 'MemoryError': 'Exception',
     'RecursionError': 'RuntimeError', 'UnpicklingError': 'Exception', 'PicklingError': 'Exception',
+    'SystemExit': 'BaseException', 'KeyboardInterrupt': 'BaseException', 'GeneratorExit': 'BaseException',
 }
 # IOError is an alias of OSError in Python 3
 EXC_ALIAS = {'IOError': 'OSError', 'EnvironmentError': 'OSError'}
